@@ -30,6 +30,7 @@ def main(tier):
     iso = chk.run("R-LR1TABLE", L.isomorphism, repo, cp, ir, floor=24000,
                   control=lambda: L.control_iso(repo, cp, ir))
     err = chk.run("R-ERRCODES", L.error_codes, repo, cp, floor=250)
+    chk.run("R-EXAMPLEFILE", L.examplefile, repo, floor=5)
     chk.run("R-LOADER", GR.loader, repo, floor=4)
     chk.run("R-CONFLICT", GR.conflict, repo, floor=2)
     programs = sum(v.get("cached_states_matched", 0) for v in iso.detail.values()) + err.detail.get("examples", 0)
